@@ -251,6 +251,16 @@ func (vm *VM) convertPanic(msg any) error {
 	if _, ok := msg.(runtimeError); ok {
 		return vm.newPanic(msg)
 	}
+	// The comparison of interface values with an uncomparable dynamic type
+	// and the use of such values as map keys panic in whatever instruction
+	// compares or hashes them.
+	if err, ok := msg.(runtime.Error); ok {
+		s := err.Error()
+		if strings.HasPrefix(s, "runtime error: comparing uncomparable type ") ||
+			strings.HasPrefix(s, "runtime error: hash of unhashable type ") {
+			return vm.newPanic(runtimeError(s))
+		}
+	}
 	return &fatalError{msg: msg}
 }
 
